@@ -15,7 +15,7 @@ PROP = 'C17'
 RULE = ('T in {2,4,8} threads, each with its own engines, each converting its own generated stream of 20..120 (document, format, extension set, '
         'language) items drawn from the statefulness pool of C05 (e-mail autolinks, notes, cross-references, tables, images, metadata, CriticMarkup, '
         'multi-slab document) and the corpus, all 12 formats incl. packages, random yields/sleeps between items derived from VERIF_SEED; library '
-        'built with DISABLE_OBJECT_POOL and -fsanitize=thread. Oracle: (1) ThreadSanitizer (happens-before) reports nothing; (2) every thread\'s '
+        'built with DISABLE_OBJECT_POOL and -fsanitize=thread. One stream in five is asset-heavy (every item packs the document with local images into epub / odt / textbundle with a directory), one in four draws random anchors on every item. Oracle: (1) ThreadSanitizer (happens-before) reports nothing; (2) every thread\'s '
         'output equals the output of the same item in a single-threaded run (packages under the UUID/date mask; random-anchor items are not compared but must be self-consistent: every generated #fn:N / #<number> link has its id). '
         'Non-trivial: a run in which conversion intervals of >=2 threads overlapped and >=1 item used a stateful feature; distinct by (seed, T, stream).')
 ASSUMPTIONS = ['a happens-before detector only sees accesses that were executed in the sampled schedules; this is exploration, not a proof of race freedom',
